@@ -154,6 +154,9 @@ THREE_PART = {
     "three_part_target": "INSERT INTO zqs1.zqs2.zqt1 SELECT ca FROM zqt2",
     "three_part_join": "INSERT INTO zqt1 SELECT a.ca, b.cb FROM zqs1.zqs2.zqt2 AS a JOIN zqs3.zqt3 AS b ON a.id = b.id",
     "two_part_qualifier": "INSERT INTO zqt1 SELECT zqt2.ca FROM zqs1.zqt2",
+    # a qualified wildcard next to a second relation: its qualifier (an alias / a bare table name) quoted or not
+    "qualified_star_alias": "INSERT INTO zqt1 SELECT zqa1.*, zqa2.cb FROM zqt2 AS zqa1 JOIN zqt3 AS zqa2 ON zqa1.id = zqa2.id",
+    "qualified_star_table": "INSERT INTO zqt1 SELECT zqt2.* FROM zqt2 JOIN zqt3 ON zqt2.id = zqt3.id",
 }
 QSTYLE = {"ansi": '"%s"', "sparksql": "`%s`", "tsql": "[%s]"}
 
